@@ -112,13 +112,15 @@ protected:
         return const_cast<std::vector<TermName> &>(namesForTerm(term));
     }
 
-    void pushScope() {
-        if (isGlobal()) { return; }
-        scopedNamesAndTerms.pushScope();
-    }
+    // A scope is opened on every push and closed on every pop, whatever :global-declarations says at the moment: the option
+    // can change between a push and its pop.  With global declarations the names of the closed scope are kept.
+    void pushScope() { scopedNamesAndTerms.pushScope(); }
 
     void popScope() {
-        if (isGlobal()) { return; }
+        if (isGlobal()) {
+            scopedNamesAndTerms.mergeScope();
+            return;
+        }
         scopedNamesAndTerms.popScope([this](auto const & p) {
             auto const & [name, term] = p;
             assert(not contains(term) or nameToTerm.find(name)->second.x == term.x);
